@@ -807,7 +807,7 @@ func c8CloneOwnership(c *Ctx, rule string) {
 		if fn == nil {
 			continue
 		}
-		rn := fn.Params[0].Name()
+		rn := PN(fn.Params[0])
 		var bad []string
 		seqs, trunc := ConcPaths(fn, ConcCfg{
 			MaxDepth:  8,
